@@ -147,7 +147,12 @@ def checksumVerify : DM Bool := do
     pure true
   else
     match Fs.calcChecksum s.fs (Checksum.CksType.ofNat p.cksType) p.fileName p.progress 4096 with
-    | .error e => throw (Err.ofFs e)
+    | .error e =>
+      if e.isOsError then
+        -- `except OSError`: a file which can not be read matches nothing
+        let _ ← declareFault ccChecksumFailure
+        pure false
+      else throw (Err.ofFs e)
     | .ok crc =>
       if crc = p.crc32 then
         markComplete
